@@ -60,6 +60,18 @@ def lookups(ctx, viol, st):
                     ok = np.array_equal(y[0], np.array(Y[i]))
                 if y.shape != (1, m) or not ok:
                     viol.append({"signature": "nearest-design-value", "message": f"evaluate({q}, noisy=False) returned {y.tolist()}, nearest design {i} has {Y[i]}", "replay": {"kind": "lookup", "X": X, "Y": Y, "q": q}})
+        # the caller refills ONE preallocated query buffer in place between calls: every call answers for the
+        # buffer's current contents (deterministic choice of rows: rotation of the design list)
+        nb = min(3, K)
+        buf = np.zeros((nb, d))
+        for rnd in range(4):
+            rows = [(rnd * 2 + j * 3) % K for j in range(nb)]
+            buf[:] = np.array([X[r] for r in rows])
+            yb = prob.evaluate(buf, noisy=False)
+            st["lookups"] += 1
+            if yb.shape != (nb, m) or not np.array_equal(yb, np.array([Y[r] for r in rows])):
+                viol.append({"signature": "nearest-design-value", "message": f"call {rnd + 1} on a refilled query buffer holding designs {rows} returned {np.asarray(yb).tolist()}, their objective vectors are {[Y[r] for r in rows]}", "replay": {"kind": "lookup", "X": X, "Y": Y, "buffer_rounds": rnd + 1}})
+                break
         # 1-D single point (on the grid, or far outside the cube)
         q = list(rng.choice(X)) if rng.random() < 0.5 else [rng.randint(-128, 192) / 64.0 + 1 / 1024.0 for _ in range(d)]
         arg1 = np.array(q); keep1 = arg1.copy()
@@ -89,6 +101,25 @@ def lookups(ctx, viol, st):
             viol.append({"signature": "decoupled-length-guard", "message": "evaluation_index of the wrong length accepted", "replay": {"kind": "dec"}})
         except ValueError:
             pass
+
+
+def large_dataset(ctx, viol, st):
+    """more than a thousand designs: every design is its own nearest design, batches of every size"""
+    from vopy.maximization_problem import ProblemFromDataset
+    import vopy.datasets.dataset as dsmod
+    from vopy.utils.utils import get_closest_indices_from_points
+    for K in ((1300,) if ctx.quick else (1025, 1300, 2500)):
+        X = [[k / 4096.0, ((k * 7) % 64) / 64.0] for k in range(K)]
+        Y = [[k / 8.0, -(k % 13) / 4.0] for k in range(K)]
+        prob = ProblemFromDataset(getattr(dsmod, algrun.make_ds(X, Y))(), 0.01)
+        y = prob.evaluate(np.array(X), noisy=False)
+        st["lookups"] += K
+        bad = [k for k in range(K) if not np.array_equal(y[k], np.array(Y[k]))]
+        idx = [int(i) for i in get_closest_indices_from_points(np.array(X)[::-1], np.array(X), squared=True)]
+        if idx != list(range(K))[::-1] and not bad:
+            bad = [k for k in range(K) if idx[K - 1 - k] != k]
+        if bad:
+            viol.append({"signature": "nearest-design-value", "message": f"dataset of {K} designs: evaluating design {bad[0]} itself does not return its own objective vector ({len(bad)} designs affected)", "replay": {"kind": "large", "K": K}})
 
 
 def noise(ctx, viol, st):
@@ -194,10 +225,10 @@ def normalise(ctx, viol, st):
 def run(ctx):
     viol = []
     st = {"lookups": 0, "decoupled": 0, "noisy_evaluations": 0, "continuous_evaluations": 0, "datasets": 0, "normalise_roundtrips": 0}
-    lookups(ctx, viol, st); noise(ctx, viol, st); continuous(ctx, viol, st); datasets(ctx, viol, st); normalise(ctx, viol, st)
+    lookups(ctx, viol, st); large_dataset(ctx, viol, st); noise(ctx, viol, st); continuous(ctx, viol, st); datasets(ctx, viol, st); normalise(ctx, viol, st)
     n = sum(st.values())
     return {"evaluations": n, "distinct_nontrivial": st["lookups"] + st["noisy_evaluations"],
-            "rule": "injected exact datasets (1-12 designs, 1-3 inputs): on-grid and off-grid queries (nearest unique by a margin), single points and batches, the three evaluation-index forms and the length guard; noisy evaluation with np.random.normal replaced by a recorded dyadic draw g must equal f + g L^T exactly for diagonal and correlated lower-triangular factors L; caller arrays compared before/after every call (dataset and continuous problems); the four bundled datasets checked exhaustively (sizes, inputs in [0,1] with both ends attained, outputs mean 0 / variance 1); normalize/unnormalize round trips on dyadic data; non-trivial = lookups + noisy evaluations",
+            "rule": "injected exact datasets (1-12 designs, 1-3 inputs): on-grid and off-grid queries (nearest unique by a margin), single points and batches, one preallocated query buffer refilled in place between calls, a dataset of more than a thousand designs, the three evaluation-index forms and the length guard; noisy evaluation with np.random.normal replaced by a recorded dyadic draw g must equal f + g L^T exactly for diagonal and correlated lower-triangular factors L; caller arrays compared before/after every call (dataset and continuous problems); the four bundled datasets checked exhaustively (sizes, inputs in [0,1] with both ends attained, outputs mean 0 / variance 1); normalize/unnormalize round trips on dyadic data; non-trivial = lookups + noisy evaluations",
             "samples": [{"kind": "noise", "L": [[1.0, 0.0], [2.0, 1.0]]}], "violations": viol, "extra": st}
 
 
